@@ -15,6 +15,7 @@ Every cycle must go through a *bounder*: a function that either
 
 A cycle that stays cyclic after removing its bounders is reported.
 """
+import re
 from collections import defaultdict
 
 import callgraph
@@ -129,6 +130,45 @@ def sccs_of(cg, edges, nodes=None):
 
 
 def verify_depth_param(fn, pname, cycle_names):
+    """(ok, reason).  `pname` is only a hint: when no parameter of that name exists (it was renamed) every
+    integer-like parameter is tried and the first one that carries the idiom is taken."""
+    names = [fn.vars[v]["n"] for v in fn.params]
+    order = ([pname] if pname in names else []) + [n for v, n in zip(fn.params, names) if n != pname and
+                                                   (fn.var_type(v) in ("int", "long", "unsigned int", "unsigned long", "short")
+                                                    or fn.var_type(v) == "struct sexp_struct *") and n not in ("ctx", "self")]
+    first = None
+    for cand in order:
+        ok, why = _verify_with_param(fn, cand, cycle_names)
+        if ok or (cand == pname) or isinstance(why, list):
+            verify_depth_param.pname_of[fn.name] = cand
+            return ok, why
+        first = first or (ok, why)
+    return first if first else (False, "no parameter of %s carries a depth count" % fn.name)
+
+
+verify_depth_param.pname_of = {}
+
+
+def predicate_summary(fn, name):
+    """a helper `int p(int x) { return x > CONST; }`: (parameter index, operator, constant) or None"""
+    g = fn.unit.functions.get(name)
+    if g is None or not g.blocks:
+        return None
+    rets = [g.strip(nd["c"][0]) for nd in g.nodes if nd["k"] == "ret" and nd.get("c")]
+    if len(rets) != 1:
+        return None
+    rn = g.nodes[rets[0]]
+    if rn["k"] != "bin" or rn["o"] not in ("<", "<=", ">", ">="):
+        return None
+    l, r = g.strip(rn["c"][0]), g.strip(rn["c"][1])
+    if g.nodes[l]["k"] == "ref" and g.nodes[l].get("d") in g.params and g.const_val(r) is not None:
+        return (g.params.index(g.nodes[l]["d"]), rn["o"])
+    if g.nodes[r]["k"] == "ref" and g.nodes[r].get("d") in g.params and g.const_val(l) is not None:
+        return (g.params.index(g.nodes[r]["d"]), {"<": ">", "<=": ">=", ">": "<", ">=": "<="}[rn["o"]])
+    return None
+
+
+def _verify_with_param(fn, pname, cycle_names):
     """(ok, reason).  The depth idiom, checked on the AST/CFG of fn."""
     pv = [v for v in fn.params if fn.vars[v]["n"] == pname]
     if not pv:
@@ -171,7 +211,8 @@ def verify_depth_param(fn, pname, cycle_names):
     for b in fn.blocks.values():
         if b.cond is None or len(b.succs) != 2:
             continue
-        if pv not in fn.refs_in(b.cond):
+        pset = {pv} | derived
+        if not (pset & fn.refs_in(b.cond)):
             continue
         if not all(b.id in dom.get(r, ()) or b.id == r for r in rec_blocks):
             continue
@@ -189,15 +230,28 @@ def verify_depth_param(fn, pname, cycle_names):
                 cond = fn.strip(fn.nodes[cond]["c"][1])
             for (a, pol) in implied(fn, cond, idx == 0):
                 an = fn.nodes[a]
+                if an["k"] == "call" and an.get("o"):
+                    # the limit test was moved into a predicate: too_deep_p(depth)
+                    ps = predicate_summary(fn, an["o"])
+                    args = an["c"][1:]
+                    if ps is None or ps[0] >= len(args) or not (pset & fn.refs_in(args[ps[0]])):
+                        continue
+                    o = ps[1]
+                    if not pol:
+                        o = {"<": ">=", "<=": ">", ">": "<=", ">=": "<"}[o]
+                    d = "up" if o in (">", ">=") else "down"
+                    guard = True
+                    direction = d
+                    continue
                 if an["k"] != "bin" or an["o"] not in ("<", "<=", ">", ">="):
                     continue
                 l, r = an["c"]
                 o = an["o"]
                 if not pol:
                     o = {"<": ">=", "<=": ">", ">": "<=", ">=": "<"}[o]
-                if pv in fn.refs_in(l) and pv not in fn.refs_in(r):
+                if (pset & fn.refs_in(l)) and not (pset & fn.refs_in(r)):
                     d = "up" if o in (">", ">=") else "down"
-                elif pv in fn.refs_in(r) and pv not in fn.refs_in(l):
+                elif (pset & fn.refs_in(r)) and not (pset & fn.refs_in(l)):
                     d = "down" if o in (">", ">=") else "up"
                 else:
                     continue
@@ -256,7 +310,7 @@ def thread_depth(comp, verified):
     known = {}
     for f in comp:
         if f.name in DEPTH_PARAM and f.name in verified:
-            pn = DEPTH_PARAM[f.name]
+            pn = verify_depth_param.pname_of.get(f.name, DEPTH_PARAM[f.name])
             idx = [k for k, v in enumerate(f.params) if f.vars[v]["n"] == pn]
             if idx:
                 known[f.name] = (idx[0], verified[f.name])
@@ -375,7 +429,8 @@ def run(prog, res, prop, rule, roots=None, floor=10, cg=None, only_units=None, k
             disc = "cycle through " + anchor
             mine = [x for x in notes if x.split(":")[0] in n2]
             for note in (mine or [None]):
-                d = disc + (" (" + note + ")" if note else "")
+                # the identity of a finding must not depend on how a parameter is called
+                d = disc + (" (" + re.sub(r"`[A-Za-z_0-9]+`", "<count>", note) + ")" if note else "")
                 res.add(Finding(prop, rule + ".unbounded", anchor, d, f0.where(),
                                 "recursion cycle {%s} has no depth bound: nesting depth of user-shaped input maps to C stack "
                                 "depth%s" % (", ".join(n2[:6]), ("; " + note) if note else ""),
